@@ -1026,7 +1026,11 @@ impl Check for C09 {
             let sub = d.label.split("::").nth(1).unwrap_or("").trim().to_string();
             let who = sub.split_whitespace().nth(1).unwrap_or("?");
             let kind = sub.split_whitespace().find(|w| w.starts_with("kind=")).unwrap_or("kind=?").trim_start_matches("kind=");
-            if d.class() == "alloc-failure" {
+            let panicked = d.last_panic();
+            if let Some((loc, msg)) = panicked.as_ref().filter(|(_, m)| m.contains("capacity overflow") || m.contains("Hash table capacity")) {
+                // the process died while the known pre-allocation panic was unwinding
+                r.frag.violation(&alloc_key(who), &format!("[{} {} death:{}] worker died while unwinding `{}` ({}): {}", who, kind, d.class(), msg, loc, d.label), death_json(d));
+            } else if d.class() == "alloc-failure" {
                 r.frag.violation(&alloc_key(who), &format!("[{} {} death] allocation failure (request >= 1 GiB) while decoding: {}", who, kind, d.label), death_json(d));
             } else {
                 r.frag.violation(&format!("c09|{}|death:{}|{}", who, d.class(), kind), &format!("worker died ({}) while decoding: {}", d.class(), d.label), death_json(d));
